@@ -78,7 +78,12 @@ def evolving_universe(ctx, rng, fam, k, steps, fault_rate=0.0):
         pre = snap
         ex = F.run_call(rec, ffam, call, F.Plan(plan), snaps_on=False)
         snap = rec.snapshot()
-        if M.invariant(snap):
+        probs = M.invariant(snap)
+        if probs:
+            # the structural calls themselves left something that is not a forest: every query result on it is
+            # meaningless, which is reported under the property whose workload ran into it
+            ctx.violation("%s/forest-inconsistent-after-history" % ctx.prop, "forest-invariant-in-history",
+                          {"family": fam, "state": [list(c) for c in ch0], "history": list(hist)}, expected="a consistent forest after every call", observed=probs[:4])
             return
         par, ch = [p for p, _ in snap], [list(c) for _, c in snap]
         if ex.outcome == "returned" and not ex.faults:
